@@ -85,8 +85,10 @@ Proof.
             end = \sum_(p <- List.combine u v) p.1 * p.2.
   { case: (List.combine u v) => [|xy r]; first by rewrite big_nil.
     by rewrite (fold_left_sum (fun p => p.1 * p.2)) big_cons. }
-  elim: u v k => [|x u IH] [|y v] k //=.
+  elim: u v k => [|x u IH] [|y v] k /=.
   - move=> <- _. by rewrite big_nil big_geq.
+  - by move=> <-.
+  - by move=> <-.
   - move=> <- [Hv]. rewrite big_cons big_nat_recl //=. congr (_ + _). by rewrite (IH v (length u)).
 Qed.
 
